@@ -668,6 +668,11 @@ func (lb *LoadBalancer) handleRequest(w http.ResponseWriter, r *http.Request, st
 
 // findHealthyBackend attempts to find a healthy backend with retries
 func (lb *LoadBalancer) findHealthyBackend(r *http.Request) *Backend {
+	// Re-admit every backend whose unhealthy period has expired before the strategy
+	// picks: strategies that skip unhealthy backends never hand an ejected backend to
+	// IsBackendHealthy, so it would otherwise stay ejected forever.
+	lb.refreshBackendHealth()
+
 	for i := 0; i < 3; i++ { // Try up to 3 times to find a healthy backend
 		backend := lb.NextBackend(r)
 		if backend == nil {
@@ -679,6 +684,17 @@ func (lb *LoadBalancer) findHealthyBackend(r *http.Request) *Backend {
 		}
 	}
 	return nil
+}
+
+// refreshBackendHealth marks backends healthy again once their unhealthy period has expired
+func (lb *LoadBalancer) refreshBackendHealth() {
+	lb.mutex.RLock()
+	backends := lb.strategy.GetBackends()
+	lb.mutex.RUnlock()
+
+	for _, backend := range backends {
+		lb.IsBackendHealthy(backend)
+	}
 }
 
 // proxyRequest forwards the request to a backend and handles the response
